@@ -887,7 +887,11 @@ class SymCtx:
         for f in extra:
             for m in (1, 2, 3, 4):
                 candidates.append(D - f * m)
-        for cand in candidates[:60]:
+        ex = extra[:14]
+        for i in range(len(ex)):
+            for j in range(i + 1, len(ex)):
+                candidates.append(D - ex[i] - ex[j])
+        for cand in candidates[:170]:
             if self._nonneg_by_ranges(cand, lo, hi, full):
                 return True
         return False
